@@ -1,6 +1,7 @@
 import CC.Lemmas.Prims
 import CC.Lemmas.Refresh
 import CC.Lemmas.Rev
+import CC.Lemmas.Rotation
 /-! # C05 — revocation takes effect: pruned and deleted secrets leave refreshed keys -/
 
 namespace CC.Props.C05
@@ -85,6 +86,28 @@ theorem pruned_secret_unusable (msk : Msk) (usk : Usk) (enc : XEnc)
   have := hgone t ht r mchain hg s (hsm s hs)
   simp [opens] at ho
   exact this ho.1
+
+/-- **Revocation takes effect, over every history.** In any reachable world, a key refreshed with
+either flag holds, for every right it keeps, only secrets the master key still holds for that
+right, and only rights the master key still holds and that the key had before; so it cannot open an
+encapsulation whose components were all made under secrets the master key has dropped (pruned, or
+of a deleted right). -/
+theorem refreshed_key_cannot_use_removed (w : World) (hw : Reachable w) (usk : Usk) (keep : Bool)
+    (hok : (refresh w.msk usk keep w.rng).1 = .ok ()) (enc : XEnc)
+    (hgone : ∀ t ∈ enc.targets, ∀ r mchain, w.msk.secrets.get r = some mchain → ∀ s ∈ mchain.map (·.2), s.tok ≠ t.tok) :
+    decaps (refresh w.msk usk keep w.rng).2.2.1 enc = none := by
+  apply pruned_secret_unusable w.msk _ enc _ hgone
+  intro r c hm
+  obtain ⟨mchain, h1, h2, _, _⟩ := refresh_secrets_spec w.msk usk keep w.rng (reachable_nonEmpty w hw) hok r c hm
+  exact ⟨mchain, h1, h2⟩
+
+/-- a refresh never *adds* a right to a key -/
+theorem refresh_adds_no_right (w : World) (hw : Reachable w) (usk : Usk) (keep : Bool)
+    (hok : (refresh w.msk usk keep w.rng).1 = .ok ()) :
+    ∀ r c, (r, c) ∈ (refresh w.msk usk keep w.rng).2.2.1.secrets → ∃ uc, (r, uc) ∈ usk.secrets :=
+  fun r c hm =>
+    let ⟨_, _, _, _, h4⟩ := refresh_secrets_spec w.msk usk keep w.rng (reachable_nonEmpty w hw) hok r c hm
+    h4
 
 /-- non-vacuity of `refresh_keep_sub_master`: master chain [9,5] after pruning [9,5,3]; user held [5,3] -/
 example : refreshChain [⟨9, false⟩, ⟨5, false⟩] [⟨5, false⟩, ⟨3, false⟩] = some [⟨9, false⟩, ⟨5, false⟩] := by
